@@ -15,4 +15,5 @@ for id in $ids; do
   nf=$(grep -c "no-failing-input-found" $d/last_check.txt)
   if [ $rc -eq 1 ] && [ $v -ge 1 ]; then echo "$id ($prop): caught$([ $nf -ge 1 ] && echo ' (no-failing-input-found)')"; else echo "$id ($prop): MISSED rc=$rc"; fi
 done
+rm -rf work/L  # lock traces of a seeded tree must not feed the translator
 for g in tools/gen_*.py; do python3 $g > /dev/null; done
